@@ -210,8 +210,9 @@ def cornerSign (corner : Nat) : Int × Int × Int :=
 
 /-- merge map of the six-quad box: which of the eight corners each of the 24 vertices is.
     Derived from quad.go's vertex order and the six rotations of `UnweldedQuads`
-    (top, bottom = π about Z, left = π/2 about Z, right = 3π/2 about Z, front = 3π/2 about −X, back = π/2 about −X);
-    validated against the implementation's positions on every run. -/
+    (top, bottom = π about Z, left = π/2 about Z, right = 3π/2 about Z, front = 3π/2 about −X, back = π/2 about −X):
+    PROVED from that construction in `C18.cubeQuads_positions_eq_table` (model of the construction:
+    `Model/SolidsCode.lean`), and validated against the implementation's positions on every run. -/
 def cubeQuadsCornerTable : List Nat :=
   [2, 3, 7, 6,  4, 5, 1, 0,  0, 1, 3, 2,  6, 7, 5, 4,  3, 1, 5, 7,  0, 2, 6, 4]
 
@@ -258,8 +259,9 @@ def hemispherePos (radius : α) (rows cols v : Nat) : V3 α :=
 def angleIncrement (sides : Nat) : α := n2a 1 / n2a sides * n2a 2 * pi
 
 /-- cylinder.go:34-41 (side), circle.go:29-37 + `Translate` (top cap), circle + rotation by π about X +
-    `Translate` (bottom cap; the rotation is written here in its exact form `(x, y, z) ↦ (x, −y, −z)`,
-    the implementation's quaternion arithmetic agrees to rounding, compared with a tolerance). Both caps present. -/
+    `Translate` (bottom cap; the rotation is written here in its exact form `(x, y, z) ↦ (x, −y, −z)`;
+    `Model/SolidsCode.lean` has the construction with the quaternion as the code performs it (`cylinderPosCode`, the one
+    the driver runs) and `C18.cylinder_positions_eq_exact_form` proves the two equal over ℝ). Both caps present. -/
 def cylinderPos (radius height : α) (sides v : Nat) : V3 α :=
   let hh : α := height / n2a 2
   let ang (k : Nat) : α := angleIncrement sides * n2a k
@@ -297,8 +299,9 @@ def cubeWeldedPos (w h d : α) (v : Nat) : V3 α := cornerPos w h d v
 /-- cube.go:212: `vector3.Array(potentialVerts).Normalized()` -/
 def cubeWeldedNormal (w h d : α) (v : Nat) : V3 α := (cornerPos w h d v).Normalized
 
-/-- the six-quad box: vertex `v` sits at corner `cubeQuadsPt v` (exact form; the implementation's rotated
-    quads agree to rounding, compared with a tolerance) -/
+/-- the six-quad box: vertex `v` sits at corner `cubeQuadsPt v` (exact form).  `Model/SolidsCode.lean` has the
+    construction as the code performs it (`cubeQuadsPosCode`: rotated, translated quads — the one the driver runs) and
+    `C18.cubeQuads_positions_eq_table` proves the two equal over ℝ, i.e. proves the corner table. -/
 def cubeQuadsPos (w h d : α) (v : Nat) : V3 α := cornerPos w h d (cubeQuadsPt v)
 
 /-- supplied normals of the six-quad box: `Up` rotated with the face (exact form): +y, −y, −x, +x, +z, −z -/
